@@ -15,7 +15,7 @@ LEVEL = "fault_enumeration"
 RULE = ("Case = generated recording (probe metadata with 1..384 channels, or a metadata-free flat binary; ns 1..600 not a "
         "multiple of the chunk; chunk 7..97 samples; 1/2 compression threads) + a history of 3..8 operations drawn by "
         "Hypothesis (model-based): compress(keep), decompress(keep, overwrite), decompress_to_scratch(dir|same folder), "
-        "continue with the same Reader object after an in-place compress / decompress (close + open), reopen through the bin / cbin / meta path (built directly, with open=False + open(), from a str path, or from the data file alone in another folder with explicit meta_file / ch_file), each optionally with a failure injected. For every compress / scratch "
+        "continue with the same Reader object after an in-place compress / decompress (close + open), reopen through the bin / cbin / meta path (built directly, with open=False + open(), from a str path, from the data file alone in another folder with explicit meta_file / ch_file, or from files that each carry their own UUID before the extension), each optionally with a failure injected. For every compress / scratch "
         "operation of the history ALL fault points are enumerated (an I/O error at every chunk index, in the "
         "post-compression verification and at the publishing rename, and a process death (BaseException) before every "
         "compression batch / while the scratch output is open) on a copy of the directory. Oracle: (a) reads through cbin == reads through bin == "
@@ -75,7 +75,7 @@ def _case(draw):
             o["via"] = draw(st.sampled_from(["bin", "cbin", "meta", "meta"]))
             # how the reader is built: default; open=False followed by open(); the path as a str; the data file alone in
             # another folder with its companions (.meta, .ch) passed explicitly
-            o["how"] = draw(st.sampled_from(["default", "default", "deferred", "str", "explicit"]))
+            o["how"] = draw(st.sampled_from(["default", "default", "deferred", "str", "explicit", "uuid"]))
         ops.append(o)
     sl = draw(st.lists(st.tuples(st.integers(-ns - 3, ns + 3), st.integers(-ns - 3, ns + 3),
                                  st.sampled_from([1, 2, 3, 4, 5, -1, -2, -3, -4, -5])), max_size=6))
@@ -144,6 +144,19 @@ class World:
             if not self.flat:
                 kw["meta_file"] = self.meta
             path = side / path.name
+        if how == "uuid" and path.suffix in (".bin", ".cbin") and not self.flat:
+            # data-store naming: every file of the recording carries its own UUID before the extension; the companions are
+            # found through the documented fall-back of the companion lookup
+            side = self.d.parent / "side"
+            shutil.rmtree(side, ignore_errors=True)
+            side.mkdir()
+            uu = ["4e3f0d2a-9c1b-4f7e-8a6d-1b2c3d4e5f60", "0a1b2c3d-4e5f-4a6b-8c7d-9e0f1a2b3c4d", "f1e2d3c4-b5a6-4978-8a9b-0c1d2e3f4a5b"]
+            stem = path.name[:-len(path.suffix)]
+            shutil.copy(path, side / f"{stem}.{uu[0]}{path.suffix}")
+            shutil.copy(self.meta, side / f"{stem}.{uu[1]}.meta")
+            if path.suffix == ".cbin":
+                shutil.copy(self.ch, side / f"{stem}.{uu[2]}.ch")
+            path = side / f"{stem}.{uu[0]}{path.suffix}"
         if how == "str":
             path = str(path)
         if how == "deferred":
